@@ -120,6 +120,23 @@ fn main() {
             r.sample = None;
             println!("{}", serde_json::to_string(&r).unwrap());
         }
+        Some("inproc") => {
+            // nvsim inproc <engine> <variant> <from> <to>: generate + execute in this process, one after
+            // the other (the entry point used under Miri, which cannot spawn workers)
+            let ctx_seed = std::env::var("VERIF_SEED").ok().and_then(|s| s.parse::<u64>().ok()).unwrap_or(20260927);
+            let e = engines();
+            let eng = checks::engine_by_name(&e, &args[2]);
+            let (from, to): (u64, u64) = (args[4].parse().unwrap(), args[5].parse().unwrap());
+            let mut bad = 0;
+            for i in from..to {
+                let seed = rng::run_seed(ctx_seed, &format!("{}/{}", args[2], args[3]), i);
+                let sc = eng.generate(seed, &args[3], Tier::Quick);
+                let r = eng.execute(&sc);
+                println!("run {i} seed {seed}: events={} violations={:?}", r.events, r.violations.iter().map(|v| &v.class).collect::<Vec<_>>());
+                bad += r.violations.len();
+            }
+            std::process::exit(if bad == 0 { 0 } else { 1 });
+        }
         Some("scenario") => {
             // nvsim scenario <engine> <variant> <run_seed>
             let e = engines();
